@@ -29,7 +29,9 @@ import (
 //         op block <now> <ok|panic>                          ends the block
 //         lobs <n> <records> <m> <totals> <module balance>x3 <auction proceeds>x3 <bidder balances>
 // "auction proceeds" = for every running Dutch auction TargetDebt - outstanding debt: debt coins the
-// module keeps for the auction until it closes; they are not limit-bid custody.
+// module keeps for the auction until it closes, plus the penalties of closed external auctions that
+// the module keeps as booked fees (AuctionLimitBidFeeDataExternal, only ever added to); neither is
+// limit-bid custody.
 
 const (
 	c11Col     = "ucol"
@@ -157,6 +159,11 @@ func (l *c11Lim) observe() {
 					proc[d] = proc[d].Add(lv.TargetDebt.Amount.Sub(au.DebtToken.Amount))
 				}
 			}
+		}
+	}
+	for d, asset := range []uint64{f.harbor, f.cmst, f.oth} {
+		if fee, found := a.NewaucKeeper.GetAuctionLimitBidFeeDataExternal(ctx, asset); found {
+			proc[d] = proc[d].Add(fee.Amount)
 		}
 	}
 	for d := 0; d < 3; d++ {
@@ -312,25 +319,10 @@ func c11LimitCase(t *testing.T, f *c11Fix, tr *tracer, r *rng, ci int) {
 		s.resrv = r.pickI(0, 0, 10000000, 1000)
 		aucs = append(aucs, s)
 	}
-	// an auction whose collateral can run short closes on the app reserve: either there is no reserve
-	// record (the closure fails and is rolled back) or the reserve covers the shortfall.  A reserve
-	// that exists but is too small is C10's finding C10-F2 (the close pays the full target out of
-	// the module's other coins) and is not generated here.
-	for _, asset := range []uint64{f.harbor, f.cmst} {
-		short, total, first := false, int64(0), -1
-		for i, s := range aucs {
-			if s.debtAsset == asset {
-				if first < 0 {
-					first = i
-				}
-				short = short || s.collateral < 2*(s.debt+s.fee)
-				total += s.resrv
-			}
-		}
-		if short && total > 0 && total < 10000000 {
-			aucs[first].resrv = 10000000
-		}
-	}
+	// an auction whose collateral can run short closes on the app reserve: no reserve record, or a
+	// reserve smaller than the shortfall (since 4c7737c WithdrawAppReserveFundsFn returns an error
+	// then): the closure fails and is rolled back; a reserve that covers the shortfall pays the
+	// difference into the module and the bid is cut down to the value of the left-over collateral.
 	l := c11NewLim(t, f, tr, ci, nb, closing, withdrawal, funding, base, aucs)
 	ids := []uint64{f.harbor, f.cmst, f.oth}
 	nops := 8 + r.intn(25)
